@@ -7,6 +7,7 @@ from props import hexcommon as hc
 RULE = ("BUF: per variant and per form (bytes, hex, hex+prefix), buffers of every length 0..N+64 with seeded random "
         "prior content; the call's result and the whole buffer afterwards are compared with the model and decided "
         "against the property text (error iff L < N; else Ok(N), buf[..N] == repr, buf[N..] untouched).  "
+        "Repeated on the builds with the table encoders (no hex-simd; full, half, min tables).  "
         "Non-trivial = buffer length >= 1; distinct by case text.")
 
 
@@ -18,6 +19,13 @@ def run(ctx):
     cases = suites.hex_buffer_cases(ctx.rng.fork("buf"), ctx.tier)
     ctx.correspond("BUF", cases, hb, db, flags=fl, predicate=hc.pred_store,
                    nontrivial=lambda c, i: not c.endswith(" x"))
+    # the table encoders (no hex-simd; full, half and min encode tables)
+    for name in ["nosimd", "embedded", "lowmem"]:
+        hb2 = ctx.harness(name)
+        if hb2 is None:
+            continue
+        ctx.correspond("BUF[%s]" % name, cases, hb2, db, flags=configs.flags(name), predicate=hc.pred_store, coq_sample=0,
+                       nontrivial=lambda c, i: not c.endswith(" x"))
     return finish(ctx)
 
 
